@@ -686,7 +686,8 @@ def gen_scenarios(ctx):
     def scn(ns, nb, ps, **kw):
         d = {"ns": int(ns), "nbatch": int(nb), "ps": list(ps), "ncv": 8, "ns2add": 0, "reject": False,
              "k_filter": False, "wrot": None, "nc_out": None, "dtype": "int16", "sat": True,
-             "seed": rng.randrange(1 << 30), "append": None, "loky": [], "src": "bin", "aspath": True}
+             "seed": rng.randrange(1 << 30), "append": None, "loky": [], "src": "bin", "aspath": True,
+             "gains": None, "slow": False}
         d.update(kw)
         scns.append(d)
         return d
@@ -704,10 +705,17 @@ def gen_scenarios(ctx):
 
     # --- the idle-worker rule at equality: ns = NBATCH + m*stride exactly, workers starting past the end ---
     nb0 = rng.choice([2304, 3000, 4096])
-    scn(nb0, nb0, [1, 2, rng.randrange(3, 9)], ns2add=rng.choice([0, 3]))
+    scn(nb0, nb0, [1, 2, rng.randrange(3, 9)], ns2add=rng.choice([1, 3, 100]))   # idle LAST worker and padding
     m0 = rng.choice([1, 2])
-    scn(4096 + m0 * 2048, 4096, [1, rng.randrange(5, 9), 16], ns2add=rng.choice([0, 3]),
+    scn(4096 + m0 * 2048, 4096, [1, rng.randrange(5, 9), 16], ns2add=rng.choice([2, 3]),
         append={"P": 7, "nbatch": 4096})
+    # --- per-bank AP gains (imroTbl) and slow artefacts that rail only the high-gain channels ---
+    gk = ["halves", "halves_rev", "mixed"]
+    rng.shuffle(gk)
+    for gi in gk[:3 if ctx.thorough() else 2]:
+        nbg = rng.choice([3000, 4096])
+        scn(nbg + rng.randrange(2, 5) * (nbg - 2 * T) + rng.randrange(-300, 300), nbg, [1, rng.randrange(2, 7)],
+            gains=gi, slow=True, sat=rng.random() < 0.5, ns2add=rng.choice([0, 2]))
     # --- worker shares at exact multiples of NBATCH: i*CHUNK_SIZE == k*NBATCH (ceil / int at equality) ---
     for _ in range(4 if ctx.thorough() else 2):
         nb1 = rng.choice([2304, 3000, 4096])
@@ -732,7 +740,8 @@ def gen_scenarios(ctx):
                 wrot=rng.choice([None, None, "scalar", "perm"]),
                 nc_out=rng.choice([None, None, None, 8, 5]),
                 dtype="float32" if q % 7 == 6 else ("int32" if q % 7 == 3 else "int16"),
-                src="cbin" if q % 4 == 2 else "bin", aspath=(q % 3 != 1))
+                src="cbin" if q % 4 == 2 else "bin", aspath=(q % 3 != 1),
+                gains=(None, "halves", None, "mixed", "halves_rev")[q % 5], slow=(q % 5 in (1, 3, 4)))
         if q % 4 == 1:
             d["append"] = {"P": rng.randrange(1, 7), "nbatch": rng.choice([nb, 2304, 4096])}
     # --- medium stream: 64 channels, k-filter / CAR, channel rejection ---
@@ -744,7 +753,8 @@ def gen_scenarios(ctx):
         m = rng.randrange(1, max(2, min(lim, 30000 // s)))
         ns = max(9500, min(40000 if ctx.thorough() else 16000, boundary_ns(nb, m)))
         d = scn(ns, nb, some_ps(3), ncv=64, k_filter=(q % 3 != 2), reject=(q % 2 == 0),
-                ns2add=rng.choice([0, 5]), wrot=rng.choice([None, "perm"]), src="cbin" if q % 3 == 1 else "bin")
+                ns2add=rng.choice([0, 5]), wrot=rng.choice([None, "perm"]), src="cbin" if q % 3 == 1 else "bin",
+                gains=("halves", None, "mixed")[q % 3], slow=(q % 3 != 1))
         if q == 0:
             d["loky"] = [rng.randrange(2, 7)]
             d["append"] = {"P": rng.randrange(2, 6), "nbatch": nb}
@@ -755,7 +765,7 @@ def gen_scenarios(ctx):
         s = nb - 2 * T
         ns = max(9500, min(30000 if ctx.thorough() else 13000, boundary_ns(nb, rng.randrange(2, 6))))
         scn(ns, nb, [rng.randrange(2, 7)] + ([1] if ctx.thorough() else []), ncv=384, k_filter=True, reject=True,
-            ns2add=rng.choice([0, 3]), loky=[rng.randrange(2, 7)] + ([8] if ctx.thorough() else []))
+            gains="halves", slow=True, ns2add=rng.choice([0, 3]), loky=[rng.randrange(2, 7)] + ([8] if ctx.thorough() else []))
     return scns
 
 
@@ -835,14 +845,21 @@ def check_run(ctx, scn, obs, data, ref, ref_prev, tags_base, cases, stats, nbatc
                      % int((last != sat).sum()))
             refby = {r["first"]: r for r in ref}
             nbadargs = sum(1 for w in obs["workers"] for b in w["batches"] if sat_args(b, refby.get(b["first"])) != 0)
-            if nbadargs:
-                fail("qc: %d saturation() calls were not given one threshold per voltage channel (that channel's "
-                     "range), the reader's sampling rate and the raw chunk" % nbadargs)
+            if nbadargs:           # not a failure by itself (harmless on a uniform-gain probe): reported with the model
+                ctx.disagree("%d saturation() calls were not given one threshold per voltage channel (that channel's "
+                             "range), the reader's sampling rate and the raw chunk" % nbadargs, inp, tags)
             nraw = sum(1 for w in obs["workers"] for b in w["batches"] if sat_stage(b, refby.get(b["first"])) == 0)
             nall = sum(len(w["batches"]) for w in obs["workers"])
             if nraw != nall:
                 fail("qc: %d of %d saturation assignments are not saturation()'s verdict on the raw chunk "
                      "[first_s:last_s] of their batch" % (nall - nraw, nall))
+        # independent of voltage.saturation: a sample at which more than 20 % of the voltage channels sit
+        # within 2 % of their ADC rail (raw counts, 10-bit NP1: |count| > 0.98 * 512) must be flagged
+        rail = np.mean(np.abs(data[:, :ncv].astype(np.int32)) > 0.98 * 512, axis=1) > 0.2
+        if np.any(rail & ~sat):
+            fail("qc: %d samples with more than 20%% of the channels at their rail are not flagged in the "
+                 "saturation file" % int(np.count_nonzero(rail & ~sat)))
+        stats["rail_samples"] = stats.get("rail_samples", 0) + int(rail.sum())
         cover = np.zeros(ns, dtype=bool)       # flag must be the value some covering batch computed
         for r in ref:
             cover[r["first"]:r["last"]] |= (sat[r["first"]:r["last"]] == r["sat"])
@@ -1100,6 +1117,7 @@ def run(ctx):
     ctx.measurements["samples where saturation(raw) != saturation(tapered) in the generated data (must be > 0 for the "
                      "raw-vs-tapered stage to be observable)"] = stats.get("sat_raw_vs_tapered_samples", 0)
     ctx.measurements["saturated samples flagged by the reference (per batch, summed)"] = stats.get("sat_flagged_samples", 0)
+    ctx.measurements["samples with > 20% of the channels at their rail (raw counts rule, all runs)"] = stats.get("rail_samples", 0)
     if stats.get("sat_raw_vs_tapered_samples", 0) == 0:
         ctx.disagree("generator: no sample distinguishes saturation(raw) from saturation(tapered)", {"kind": "generator"})
     dist = {"scenarios": len(scns), "runs": stats["runs"], "runs_threading": stats["runs_threading"],
@@ -1141,6 +1159,7 @@ def replay(ctx, data):
     scn = {k: inp[k] for k in ("ns", "nbatch", "ncv", "ns2add", "reject", "k_filter", "wrot", "nc_out", "dtype",
                                "sat", "seed", "append")}
     scn["src"], scn["aspath"] = inp.get("src", "bin"), inp.get("aspath", True)
+    scn["gains"], scn["slow"] = inp.get("gains"), inp.get("slow", False)
     scn["ps"] = sorted({1, inp.get("P", 1), inp.get("P_ref", 1)})
     scn["loky"] = [inp["P"]] if inp.get("backend") == "loky" else []
     if not inp.get("append_run"):
